@@ -378,6 +378,9 @@ class FileDescriptor(_ConsumerMixin, _LogOwner):
         streaming producer is registered, it will be paused until the buffered
         data is written to the underlying file descriptor.
         """
+        # The iterable is traversed several times below; a one-shot iterator
+        # would be exhausted by the first pass and its data silently dropped.
+        iovec = list(iovec)
         for i in iovec:
             _dataMustBeBytes(i)
         if not self.connected or not iovec or self._writeDisconnected:
